@@ -37,8 +37,9 @@ SHAPES = {
     "s2": lambda: signed(2), "s3": lambda: signed(3), "u0": lambda: unsigned(0),
     "enum2": lambda: E2, "flag3": lambda: F3,
     "struct3": lambda: adata.StructLayout({"a": 1, "b": 2}),
-    "range5": lambda: range(5),
+    "range5": lambda: range(5), "u8": lambda: unsigned(8), "s8": lambda: signed(8), "s5": lambda: signed(5),
 }
+WIDE_TOKENS = (0x00, 0xFF, 0x0F, 0xF0, 0x55, 0xAA, 0x80, 0x01)
 
 
 def shape_width(name):
@@ -95,7 +96,7 @@ class Observer:
         self.init = cfg.get("init", 0) & self.mask if self.a in ("RW", "RW1C", "RW1S") else 0
         self.ii = comp.in_index
         self.pi = comp.probe_index
-        doms = [range(1 << w) for w in comp.in_widths]
+        doms = [range(1 << w) if w <= 3 else sorted({t & ((1 << w) - 1) for t in WIDE_TOKENS}) for w in comp.in_widths]
         self._letters = list(itertools.product(*doms))
 
     def letters(self, obs):
@@ -147,6 +148,10 @@ def configs(tier):
                 inits = range(5)
             for init in inits:
                 out.append(dict(action=a, shape=sh, init=init))
+        # wide shapes (signed and unsigned): token alphabets on data / set / clear, every storage value reachable
+        for sh in ("u8", "s8") + (("s5",) if tier == "thorough" else ()):
+            for init in (0, 0x5A, 0x80) if tier == "thorough" else (0x5A,):
+                out.append(dict(action=a, shape=sh, init=init & ((1 << shape_width(sh)) - 1)))
     for a in ("R", "W", "ResRAW0", "ResRAWL", "ResR0WA", "ResR0W0"):
         for sh in ["u1", "u3", "s2", "enum2", "u0"] + (["flag3", "struct3"] if tier == "thorough" else []):
             out.append(dict(action=a, shape=sh))
@@ -177,5 +182,5 @@ def main(tier, seed):
 ASSUMPTIONS = [
     "Amaranth 0.5.10 front end, build_netlist and Simulator are the trusted base",
     "rst held at 0",
-    "shapes up to 3 bits wide (all values of all ports enumerated)",
+    "shapes up to 3 bits wide: all values of all ports enumerated; 5- and 8-bit shapes: 8 data tokens per port (0x00 0xFF 0x0F 0xF0 0x55 0xAA 0x80 0x01)",
 ]
